@@ -286,9 +286,11 @@ def run_property(modname: str, tier: str, seed: int, replay: str | None = None) 
             print(f'KNOWN-FINDING: property={pid} {known[key]["what"]} [{key}; {len(lst)} case(s) this run]')
             continue
         case, f = min(lst, key=lambda cf: len(json.dumps(cf[0], default=str)))
-        small = shrink(mod, case, key)
-        res = eval_one(mod, small)
-        ff = [x for x in res['findings'] if x['key'] == key] or [f]
+        # a case that came from a shared foundation stage is shrunk / re-evaluated by that module, not by the property's own
+        emod = importlib.import_module(case['foundation']) if isinstance(case, dict) and case.get('foundation') else mod
+        small = shrink(emod, case, key)
+        res = eval_one(emod, small) or {}
+        ff = [x for x in res.get('findings', []) if x['key'] == key] or [f]
         rp = core.write_replay(pid, dict(property=pid, key=key, case=small, finding=ff[0], seed=seed, tier=tier,
                                           occurrences=len(lst), tree=core.tree_hash()))
         print(f'VIOLATION property={pid} replay={rp}')
